@@ -20,10 +20,11 @@ OBLIGATIONS = [
              "survey's (1, seqnum, root hash) checkstring or the empty-share test, which installs the new (1, new seqnum, new root hash) at "
              "offset 0; after an accepted write the next _write tests for our own new checkstring, after a refused one the old expectation stands",
         outside="server side (C24)"),
-    chx("surprise_is_ucwe", "C12_h", "h_surprise", timeout=T,
+    chx("surprise_is_ucwe", "C12_h", "h_surprise", timeout=T, bounds={"quick": {"rmax": 1}, "thorough": {"rmax": 2}},
         cases=[{"mdmf": m, "asked": a, "_label": "%s-%s" % ("mdmf" if m else "sdmf", "asked" if a else "notasked")}
                for m in (False, True) for a in (True, False)],
-        desc="Publish._got_write_answer + _push/_failure/_done with symbolic checkstring fields (SDMF and MDMF): a refused write, or a share "
+        desc="Publish._got_write_answer called for TWO answers in either order (the one under study and a plain one, each accepted or refused) + "
+             "_push/_failure/_done, with symbolic checkstring fields (SDMF and MDMF); the surprise flag is sticky: a refused write, or a share "
              "on that server that we are not writing there and whose (seqnum, root hash, salt) differs from ours, ends the publish with "
              "UncoordinatedWriteError; otherwise the accepted write is recorded as placed and the publish succeeds",
         outside="the enumeration of survey/write interleavings of 2-3 writers and the (writers+1)*k <= N recoverability bound need whole-grid "
